@@ -168,7 +168,7 @@ func rrStr(rr dns.RR) string {
 }
 
 // kind classifies an observation for violation keys and coverage.
-func (o wireObs) kind(host string) string {
+func (o wireObs) kind(host string, full bool) string {
 	if o.Err != "" {
 		if strings.HasPrefix(o.Err, "PANIC") {
 			return "panic"
@@ -199,11 +199,14 @@ func (o wireObs) kind(host string) string {
 	if cn {
 		k += "+cname"
 	}
-	if addrs > 0 {
-		k += "+records"
-	}
 	if len(o.Res.Question) != 1 || !strings.EqualFold(o.Res.Question[0].Name, dns.Fqdn(host)) {
 		k += "+question-not-restored"
+	}
+	if !full {
+		return k
+	}
+	if addrs > 0 {
+		k += "+records"
 	}
 	return k + "+" + dns.RcodeToString[o.Res.Rcode]
 }
@@ -392,17 +395,29 @@ func (e *env) checkWire(table []entry, q query, mode string, ref *refResult, w *
 	o := w.exchange(q.Host, q.QT, mode)
 	e.g.beat.Add(1)
 	c.Count("wire_requests", 1)
-	kind := o.kind(q.Host)
+	kind := o.kind(q.Host, false)
 	if ref.Matched {
-		c.Distinct("wire", mode+":"+qtName(q.QT)+":"+kind)
+		c.Distinct("wire", mode+":"+qtName(q.QT)+":"+o.kind(q.Host, true))
 	}
 	if kind == "panic" {
 		cs.Got = o.Err
 		c.Violation("panic:wire", fmt.Sprintf("the request handler panics: %s; table %s, query %s %s, upstream %s", o.Err, tableStr(table), q.Host, qtName(q.QT), mode), cs)
 		return
 	}
-	var whys, exp []string
+	// The canonical name the client was given, to pick the leaves the failure
+	// is about (ties produce several leaves with different names).
+	obsCanon := ""
+	if o.Res != nil {
+		for _, rr := range o.Res.Answer {
+			if cn, ok := rr.(*dns.CNAME); ok {
+				obsCanon = strings.TrimSuffix(cn.Target, ".")
+				break
+			}
+		}
+	}
+	var whys, exp, expAll []string
 	seen := map[string]bool{}
+	emptyWanted := false
 	for _, l := range ref.Leaves {
 		why := matchLeaf(l, q.Host, q.QT, mode, o)
 		if why == "" {
@@ -412,14 +427,33 @@ func (e *env) checkWire(table []entry, q query, mode string, ref *refResult, w *
 			seen[n] = true
 			whys = append(whys, n+": "+why)
 		}
-		if k := leafKindName(l); !contains(exp, k) {
-			exp = append(exp, k)
+		k := leafKindName(l)
+		if !contains(expAll, k) {
+			expAll = append(expAll, k)
 		}
+		if l.Canon == obsCanon && l.Kind != lAny {
+			if !contains(exp, k) {
+				exp = append(exp, k)
+			}
+			if l.Kind == lEmpty {
+				emptyWanted = true
+			}
+		}
+	}
+	if len(exp) == 0 {
+		exp = expAll
 	}
 	sort.Strings(exp)
 	cs.Got = o.describe()
 	cs.Accept = whys
-	c.Violation("wire:exp="+strings.Join(exp, "|")+":got="+kind+":upstream="+mode,
+	key := "wire:exp=" + strings.Join(exp, "|") + ":got=" + kind
+	if strings.Contains(kind, "+question-not-restored") {
+		key = "wire:question-not-restored:" + strings.Replace(kind, "+question-not-restored", "", 1)
+	}
+	if emptyWanted && strings.HasPrefix(kind, "upstream(canonical)+cname") {
+		key = "wire:cname-target-matched-without-value-asks-upstream" + strings.TrimPrefix(kind, "upstream(canonical)+cname")
+	}
+	c.Violation(key,
 		fmt.Sprintf("table %s, query %s %s, upstream answers %s: client sees %s\n  not acceptable as %s",
 			tableStr(table), q.Host, qtName(q.QT), mode, cs.Got, strings.Join(whys, "\n  nor as ")), cs)
 }
